@@ -27,8 +27,10 @@ package server
 // the last report has fired plus half a timeout.
 
 import (
+	"bytes"
 	"context"
 	"fmt"
+	"io"
 	"os"
 	"runtime"
 	"sort"
@@ -109,6 +111,16 @@ func vC07Gate(name string) {
 		<-slot.release
 	}
 }
+
+// vC07Sink is the raft.SnapshotSink the controller's snapshot is persisted into
+type vC07Sink struct {
+	bytes.Buffer
+	cancelled bool
+}
+
+func (s *vC07Sink) ID() string    { return "c07" }
+func (s *vC07Sink) Cancel() error { s.cancelled = true; return nil }
+func (s *vC07Sink) Close() error  { return nil }
 
 type vC07State struct {
 	Exists bool       `json:"exists"`
@@ -416,6 +428,7 @@ func (r *vC07Run) step(step map[string]interface{}) (ev vC07Event, ok bool) {
 		reqCtx = c3
 	}
 	faultMissed := false
+	timing := false // timing interference seen by the step itself: repeat the behaviour
 	pepochBefore := int64(r.p.GetEpoch())
 	expire := false
 	t0 := time.Now()
@@ -585,11 +598,42 @@ func (r *vC07Run) step(step map[string]interface{}) (ev vC07Event, ok bool) {
 				faultMissed = true
 			}
 		case "Rebuild":
-			// rebuild the partition object from its persisted form: pause the stream
-			// (real PauseStream) and resume it (real RESUME_STREAM entry through Raft;
-			// ResumeStream itself would then wait for the fictitious leader's status)
+			// rebuild the partition object from its persisted form.
+			// how = resume: pause the stream (real PauseStream) and resume it (real
+			// RESUME_STREAM entry through Raft; ResumeStream itself would then wait for
+			// the fictitious leader's status).
+			// how = restore: the controller's FSM takes a snapshot of its state (real
+			// Server.Snapshot + fsmSnapshot.Persist) and is handed it back (real
+			// Server.Restore on the running server, as Raft's InstallSnapshot does).
+			how := vStrDef(step, "how", "resume")
+			args["how"] = how
 			if len(r.pend) > 0 {
 				obs.A, a = "Skip", "Skip" // outside the domain
+				return
+			}
+			if how == "restore" {
+				fs, err := r.srv.Snapshot()
+				if err != nil {
+					obs.Err = "other:snapshot:" + err.Error()
+					return
+				}
+				sink := &vC07Sink{}
+				if err := fs.Persist(sink); err != nil || sink.cancelled {
+					obs.Err = fmt.Sprintf("other:persist:%v", err)
+					return
+				}
+				fs.Release()
+				err = r.srv.Restore(io.NopCloser(bytes.NewReader(sink.Bytes())))
+				if np := r.srv.metadata.GetPartition(r.stream, 0); np != nil {
+					r.p = np
+				}
+				r.armStart = time.Time{}
+				switch {
+				case err != nil:
+					obs.Err = "other:restore:" + err.Error()
+				case r.srv.metadata.GetPartition(r.stream, 0) == nil:
+					obs.Err = "nostream" // the snapshot holds no such stream
+				}
 				return
 			}
 			st := r.srv.metadata.PauseStream(ctx, &proto.PauseStreamOp{Stream: r.stream})
@@ -613,7 +657,9 @@ func (r *vC07Run) step(step map[string]interface{}) (ev vC07Event, ok bool) {
 			r.armStart = time.Time{}
 		case "Expire":
 			expire = true
-			r.expire()
+			if !r.expire() {
+				timing = true
+			}
 		case "Lose":
 			raft := r.srv.getRaft()
 			if err := r.srv.leadershipLost(raft); err != nil {
@@ -654,8 +700,8 @@ func (r *vC07Run) step(step map[string]interface{}) (ev vC07Event, ok bool) {
 	if !expire && !r.armStart.IsZero() && time.Since(r.armStart) > vC07Timeout*6/10 {
 		ok = false
 	}
-	if faultMissed {
-		ok = false // the injected fault did not take: repeat the behaviour
+	if faultMissed || timing {
+		ok = false // the injected fault did not take / timing interference: repeat the behaviour
 	}
 	if !st.Fo.On {
 		r.armStart = time.Time{}
@@ -663,31 +709,79 @@ func (r *vC07Run) step(step map[string]interface{}) (ev vC07Event, ok bool) {
 	return vC07Event{T: r.id, A: a, Args: args, St: st, Obs: obs}, ok
 }
 
-// expire lets more than the timeout pass without a report
-func (r *vC07Run) expire() {
+// expire lets more than the timeout pass without a report.  The step must end in a
+// PROVEN situation, whatever the machine load does to this process:
+//   - the entry is gone, or
+//   - the entry stays and its timer is not running (stopped: it stays for ever), or
+//   - the entry stays and its timer is still pending after two full periods (it was
+//     armed with a longer period than the window).
+// A timer that is merely late (runtime / callback starved) is never recorded as
+// "stays": the real timer is asked (Stop() tells whether it was pending).
+// false: the outcome could not be established (the behaviour is repeated).
+func (r *vC07Run) expire() bool {
 	defer func() { r.armStart = time.Time{} }()
-	if r.failover() == nil {
-		return // nothing that could expire
+	f := r.failover()
+	if f == nil {
+		return true // nothing that could expire
 	}
-	fired := make(chan struct{})
-	canary := time.AfterFunc(vC07Timeout, func() { close(fired) })
-	defer canary.Stop()
-	var graceEnd time.Time
-	for {
-		if r.failover() == nil {
-			return
-		}
-		select {
-		case <-fired:
-			if graceEnd.IsZero() {
-				graceEnd = time.Now().Add(vC07Timeout / 2)
-			} else if time.Now().After(graceEnd) {
-				return // the entry stays: its timer is not running
+	for round := 1; ; round++ {
+		// until the entry is gone or a canary timer armed AFTER the entry's last
+		// (re)arming has fired plus half a timeout
+		fired := make(chan struct{})
+		canary := time.AfterFunc(vC07Timeout, func() { close(fired) })
+		var graceEnd time.Time
+	wait:
+		for {
+			if r.failover() == nil {
+				canary.Stop()
+				return true
 			}
-			time.Sleep(time.Millisecond)
-		case <-time.After(time.Millisecond):
+			select {
+			case <-fired:
+				if graceEnd.IsZero() {
+					graceEnd = time.Now().Add(vC07Timeout / 2)
+				} else if time.Now().After(graceEnd) {
+					break wait
+				}
+				time.Sleep(time.Millisecond)
+			case <-time.After(time.Millisecond):
+			}
 		}
+		if cur := r.failover(); cur != f {
+			return cur == nil // replaced (only this driver makes reports): repeat
+		}
+		// The entry is still there.  Ask the real timer.
+		f.mu.Lock()
+		pending := f.timer != nil && f.timer.Stop()
+		if pending {
+			f.timer.Reset(f.failover.Timeout()) // put it back: a full period again
+		}
+		f.mu.Unlock()
+		if !pending {
+			break
+		}
+		// pending although a timer armed later with the window's period fired long
+		// ago: the runtime is late (load), or the period is longer than the window
+		if round == 2 {
+			vC07Stat("expire-long-period", 0)
+			return true // two full periods: the entry stays, its timer runs on a longer period
+		}
+		vC07Stat("expire-late-timer", 0)
 	}
+	// Not pending: the timer was stopped earlier, or it has fired and its callback
+	// (which takes metadataAPI.mu and deletes the entry) is still on its way.  Give
+	// the callback a long time - wall clock AND scheduling rounds of this goroutine.
+	t0 := time.Now()
+	for polls := 0; polls < 200 || time.Since(t0) < 600*time.Millisecond; polls++ {
+		if r.failover() == nil {
+			vC07Stat("expire-late-callback", time.Since(t0))
+			return true
+		}
+		time.Sleep(time.Millisecond)
+		runtime.Gosched()
+	}
+	vC07Stat("expire-entry-stays", time.Since(t0))
+	return true // the entry stays: its timer is not running
 }
 
 func (r *vC07Run) cleanup() {
